@@ -193,7 +193,7 @@ def _per_state(spec, seq, w, caching):
 
 
 def _plain(spec):
-    return {k: (list(v) if isinstance(v, tuple) else v) for k, v in spec.items()}
+    return {k: (list(v) if isinstance(v, tuple) else v) for k, v in spec.items() if k != "explicit"}
 
 
 def replay(rec, verbose=False):
